@@ -54,10 +54,10 @@ var tds = []tdesc{
 	{"removeWhitespace", "TRemoveWhitespace", " \t\na\xa0\x85\xc2\xe2\x80\x81\xe3\x00\xff\xe1\x9a", false},
 	{"utf8toUnicode", "TUtf8ToUnicode", "a\xc2\xa0\xe2\x82\xac\xf0\x9f\x98\x80\xff\xed\xa0\x00", false},
 	// not (yet) modelled in Gallina: implementation-side oracles only
-	{"jsDecode", "", "\\uxXfF0123789abn'\"\x00\xff", false},
-	{"cssDecode", "", "\\0afFgz \n\t19\x00\xff", false},
+	{"jsDecode", "TJsDecode", "\\uxXfF0123789abn'\"\x00\xff", false},
+	{"cssDecode", "TCssDecode", "\\0afFgz \n\t19\x00\xff", false},
 	{"htmlEntityDecode", "", "&#x;0123aAmpltgnve\x00\xff", false},
-	{"removeComments", "", "/*<!->#a \x00", false},
+	{"removeComments", "TRemoveComments", "/*<!->#a \x00", false},
 	{"urlDecodeUni", "", "%uU+a0fF1\x00\xff", false},
 	{"normalisePath", "", "/.a\\\x00", false},
 	{"normalisePathWin", "", "/.a\\\x00", false},
